@@ -91,7 +91,7 @@ class LibMixin:
             val = fv(*argsv)
             eo = fe(*argsv)
             # error object: 0 = nil; otherwise a pre-existing-style id (never equal to objects allocated here)
-            self.facts.append(z3.ULT(eo, rid(FRESH_BASE)))
+            self.assume(st, z3.ULT(eo, rid(FRESH_BASE)))
             err = IfaceV(z3.If(eo == rid(0), rid(0), rid(NUMERR_TAG)), eo)
             return TupleV([val, err])
         if callee == "errors.As":
@@ -104,7 +104,7 @@ class LibMixin:
             if tt.under().k != "ptr":
                 raise Unsupported("errors.As target of non-pointer type")
             found = z3.Function("lib_errors_as_val_%d" % tt.id, RS, RS, RS)(ev_.tag, ev_.oid)
-            self.facts.append(z3.And(found != rid(0), z3.ULT(found, rid(FRESH_BASE))))
+            self.assume(st, z3.And(found != rid(0), z3.ULT(found, rid(FRESH_BASE))))
             lv = self.deref_lv(tgt, tt)
             cur = lv.get(self, st)
             saved = self.frame_spec
@@ -167,7 +167,7 @@ class LibMixin:
                 spare = self.fresh("grow@spare", z3.ArraySort(IS, srt))
                 p = z3.BitVec("p", IDX_BITS)
                 zero = FALSE if srt == z3.BoolSort() else z3.BitVecVal(0, srt.size())
-                self.facts.append(z3.ForAll([p], z3.Select(spare, p) == z3.If(z3.And(p >= v.off, p < v.off + v.ln), z3.Select(old, p), zero)))
+                self.assume(st, z3.ForAll([p], z3.Select(spare, p) == z3.If(z3.And(p >= v.off, p < v.off + v.ln), z3.Select(old, p), zero)))
                 st.mem[key] = z3.Store(m, F, spare)
             st.ghost["alloc"] = st.ghost.get("alloc", z3.BitVecVal(0, 64)) + z3.If(inplace, idx(0), newcap * idx(self.elem_size(v.elem)))
             return SliceV(z3.If(inplace, v.rid, F), v.off, v.ln, z3.If(inplace, v.cap, newcap), v.elem)
@@ -214,9 +214,9 @@ class LibMixin:
                 v = self.fresh_value(et, "ctx")
                 self.type_facts(st, v, et, param=False)
                 if isinstance(v, IfaceV):
-                    self.facts.append(v.tag != rid(0))
+                    self.assume(st, v.tag != rid(0))
                 elif isinstance(v, FuncV) and v.term is not None:
-                    self.facts.append(v.term != z3.BitVecVal(0, v.term.size()) if z3.is_bv(v.term) else TRUE)
+                    self.assume(st, v.term != z3.BitVecVal(0, v.term.size()) if z3.is_bv(v.term) else TRUE)
                 out.append(v)
             return TupleV(out)
         if callee.startswith("sync.(*Mutex).") or callee.startswith("sync.(*RWMutex)."):
@@ -295,7 +295,7 @@ class LibMixin:
                 none_before = z3.ForAll([j], z3.Implies(z3.And(j >= 0, j < z3.If(r >= 0, r, sv.ln)), z3.Select(a, sv.off + j) != c))
             else:
                 none_before = z3.ForAll([j], z3.Implies(z3.And(j > r, j < sv.ln), z3.Select(a, sv.off + j) != c))
-            self.facts.append(z3.And(r >= idx(-1) if False else r >= z3.BitVecVal(-1, IDX_BITS), r < sv.ln,
+            self.assume(st, z3.And(r >= idx(-1) if False else r >= z3.BitVecVal(-1, IDX_BITS), r < sv.ln,
                                      z3.Implies(r >= 0, hit), none_before))
             return r
         if callee == "strings.Index":
@@ -303,14 +303,14 @@ class LibMixin:
             sv = self.ev(args[0], st)
             sub = self.ev(args[1], st)
             r = self.fresh("idxs", IS)
-            self.facts.append(z3.And(r >= z3.BitVecVal(-1, IDX_BITS), r <= sv.ln, z3.Implies(r >= 0, r + sub.ln <= sv.ln)))
+            self.assume(st, z3.And(r >= z3.BitVecVal(-1, IDX_BITS), r <= sv.ln, z3.Implies(r >= 0, r + sub.ln <= sv.ln)))
             return r
         if callee == "strings.HasPrefix":
             self.models_used.add("strings.HasPrefix (true implies len(s) >= len(prefix))")
             sv = self.ev(args[0], st)
             pre = self.ev(args[1], st)
             r = self.fresh("hasprefix", z3.BoolSort())
-            self.facts.append(z3.Implies(r, sv.ln >= pre.ln))
+            self.assume(st, z3.Implies(r, sv.ln >= pre.ln))
             return r
         if callee == "strings.Fields":
             self.models_used.add("strings.Fields (fresh slice of at most len(s) non-empty substrings of s)")
@@ -321,7 +321,7 @@ class LibMixin:
             k = z3.BitVec("k", IDX_BITS)
             arrs = self.region_arrays(st, res)   # leaves of string elem: rid, off, len
             (_, _, ar), (_, _, ao), (_, _, al) = arrs
-            self.facts.append(z3.And(
+            self.assume(st, z3.And(
                 z3.UGE(res.rid, rid(FRESH_BASE)), res.off == idx(0), res.ln <= sv.ln, res.cap == res.ln,
                 z3.ForAll([k], z3.Implies(z3.And(k >= 0, k < res.ln),
                                           z3.And(z3.Select(ar, k) == sv.rid, z3.Select(ao, k) >= sv.off, z3.Select(al, k) > 0,
@@ -336,7 +336,7 @@ class LibMixin:
             fr_ = z3.Function("lib_%s_rid" % key, RS, IS, IS, RS)(sv.rid, sv.off, sv.ln)
             fo_ = z3.Function("lib_%s_off" % key, RS, IS, IS, IS)(sv.rid, sv.off, sv.ln)
             fl_ = z3.Function("lib_%s_len" % key, RS, IS, IS, IS)(sv.rid, sv.off, sv.ln)
-            self.facts.append(z3.And(fo_ >= 0, fo_ <= idx(MAXLEN), fl_ >= 0, fl_ <= idx(MAXLEN), z3.ULT(fr_, rid(FRESH_BASE)),
+            self.assume(st, z3.And(fo_ >= 0, fo_ <= idx(MAXLEN), fl_ >= 0, fl_ <= idx(MAXLEN), z3.ULT(fr_, rid(FRESH_BASE)),
                                      z3.Implies(fr_ == rid(0), fl_ == 0)))
             return SliceV(fr_, fo_, fl_, fl_, _byte_type(self.prog), isstr=True)
         if callee in ("fmt.Sprintf", "fmt.Sprint", "strconv.Quote", "strconv.Itoa"):
